@@ -486,7 +486,7 @@ Proof.
       intros H; inversion H. rewrite queue_pending_fin_st.
       apply seg_loop_st in El. exact El.
     - intros H; inversion H; reflexivity. }
-  destruct (_ ++ _); tsimpl; exact E.
+  destruct (map t_seg _); tsimpl; exact E.
 Qed.
 
 (* ---- segment_arrives: several queued segments may be processed ---- *)
